@@ -180,7 +180,17 @@ pub fn layout_module(l: &Layout) -> String {
             Some(a) => format!("[{et}; {}]", a.count),
             None => et,
         };
-        let _ = writeln!(o, "    {}\n    {}: {},", attr_text(f), f.name, ty);
+        match f.doc {
+            1 => {
+                let _ = writeln!(o, "    /// field {} of layout {}\n    {}\n    {}: {},", j, l.id, attr_text(f), f.name, ty);
+            }
+            2 => {
+                let _ = writeln!(o, "    {}\n    /// field {} of layout {}\n    {}: {},", attr_text(f), j, l.id, f.name, ty);
+            }
+            _ => {
+                let _ = writeln!(o, "    {}\n    {}: {},", attr_text(f), f.name, ty);
+            }
+        }
     }
     let _ = writeln!(o, "}}\n");
 
